@@ -55,6 +55,10 @@ class AR(gevent.event.AsyncResult):
         self.vt_conn = st
         if st is not None:
             st["ev"] = self
+            if st["sim"].in_loop:
+                # a woken puller found its job finished and blocks again (pop's retry): the model's
+                # pop_or_block reports OBlocked there too
+                st["sim"].log.append(["blocked"])
 
 
 jobs.random = types.SimpleNamespace(choice=_choice)
@@ -105,6 +109,7 @@ class Sim:
         self.viol = []
         self.at = 0
         self.done_before_loop = set()
+        self.in_loop = False
         CUR.now = 0
         CUR.choices = []
 
@@ -175,7 +180,7 @@ class Sim:
             elif st["cmd"][0] == "pull":
                 ev = st["ev"]
                 mb = ev.value.serial if ev is not None and ev.ready() else None
-                conns.append([c, "pull", list(st["cmd"][1]), mb, run])
+                conns.append([c, "pull", [chan_n(x) for x in st["cmd"][1]], mb, run])
             else:
                 conns.append([c, "wait", None, st["wait_serial"], run])
         return {
@@ -378,11 +383,13 @@ class Sim:
 
     def before_loop(self):
         self.log = []
+        self.in_loop = True
         self.done_before_loop = set(s for s, j in self.tracked.items() if j.done)
 
     def after_loop(self):
         out = self.log
         self.log = []
+        self.in_loop = False
         res = []
         for o in out:
             if o[0] == "deliver":
@@ -407,7 +414,7 @@ class Sim:
         old.kill_all()          # old greenlets die against the old object graph at the next loop turn
         new = Sim.__new__(Sim)
         new.__dict__.update(db=pickle.loads(blob), conns={}, log=[], tracked={}, final={}, handed={}, requeued={},
-                            base_done={}, viol=old.viol, at=old.at, done_before_loop=set())
+                            base_done={}, viol=old.viol, at=old.at, done_before_loop=set(), in_loop=False)
         new.wq = new.db.workq
         for st in old.conns.values():
             st["sim"] = old            # their late output goes to the old log
